@@ -23,7 +23,7 @@ RULE = (
 ASSUMPTIONS = ["the configuration is reached through the public API only (set_value, unset, reset, load of marker-free files)"]
 BUDGET = {"quick": {"examples": 3200}, "thorough": {"examples": 300000, "deadline_s": 900}}
 
-CFG = gen.cfg(max_syms=14, p_select=28, p_imply=24, p_set=24, p_wset=28, p_choice=16, string_tier="U", p_multi_def=15, p_choice_twice=15, p_bare=6)
+CFG = gen.cfg(max_syms=14, p_select=28, p_imply=24, p_set=24, p_wset=28, p_choice=16, string_tier="U", p_multi_def=15, p_choice_twice=15, p_bare=6, p_member_props=12)
 KINDS = [(55, "set"), (8, "unset"), (8, "reset"), (3, "reset_menu"), (10, "load_hand")]
 
 
